@@ -27,6 +27,8 @@ for pid in sys.argv[1:]:
         mod.prepare(ctx)
     else:
         vc.build_harness(pid.lower())
+    if getattr(mod, "RELEASE_TOO", False):
+        vc.build_harness(pid.lower(), release=True)      # the release-profile pass of ./check
     print("built", pid)
 PY
 echo setup ok
